@@ -1037,17 +1037,21 @@ def model_check(cases, mains, name='C10', chunk=60, parallel=4):
     bad, totals = [], [0] * 7
     import concurrent.futures
 
-    def one(off):
-        body = ('Definition cases : list tcase := [\n' + ';\n'.join(rows[off:off + chunk]) +
+    # round-robin chunks: the heavy corpus cases (calendar sweeps) are spread over all files
+    nch = max(1, (len(rows) + chunk - 1) // chunk)
+    parts = [list(range(k, len(rows), nch)) for k in range(nch)]
+
+    def one(k):
+        body = ('Definition cases : list tcase := [\n' + ';\n'.join(rows[j] for j in parts[k]) +
                 '\n].\nEval vm_compute in (failing 0 cases, totals cases).\n')
-        return off, run_cases(f'{name}_{off // chunk}', HEADER, body)
+        return k, run_cases(f'{name}_{k}', HEADER, body)
     with concurrent.futures.ThreadPoolExecutor(max_workers=parallel) as ex:
-        outs = list(ex.map(one, range(0, len(rows), chunk)))
-    for off, (rc, out, err) in outs:
+        outs = list(ex.map(one, range(nch)))
+    for k, (rc, out, err) in outs:
         m = re.search(r'=\s*\(\s*\[(.*?)\]\s*,\s*\[(.*?)\]\s*\)\s*:', out.replace('%nat', ''), re.S)
         if rc != 0 or not m:
             return None, idx, (out + err)[-1500:], totals
-        bad += [idx[off + int(x)] for x in m.group(1).replace('\n', ' ').split(';') if x.strip()]
+        bad += [idx[parts[k][int(x)]] for x in m.group(1).replace('\n', ' ').split(';') if x.strip()]
         t = [int(x) for x in m.group(2).replace('\n', ' ').split(';') if x.strip()]
         totals = [a + b for a, b in zip(totals, t)]
     return bad, idx, '', totals
@@ -1181,7 +1185,7 @@ def main(tier):
     if res['hygiene']:
         broken.append({'kind': 'hygiene', 'detail': res['hygiene']})
 
-    n = 800 if tier == 'quick' else 6000
+    n = 600 if tier == 'quick' else 6000
     rnd = random.Random(run.seed * 7919 + 10)
     cases = corpus_cases() + [gen_case(rnd) for _ in range(n)]
     jobs, spans = [], []
